@@ -1082,7 +1082,7 @@ def _infer_expr_type(
         if isinstance(node.op, ast.Not):
             _visit_operand(node.operand)
             return "bool"
-        return _infer_expr_type(
+        operand_type = _infer_expr_type(
             node.operand,
             var_types,
             functions,
@@ -1090,6 +1090,8 @@ def _infer_expr_type(
             function_param_orders,
             ctx,
         )
+        # -True is the int -1 (and ~True is -2): arithmetic on a bool yields an int
+        return "int" if operand_type == "bool" else operand_type
 
     if isinstance(node, ast.BoolOp):
         for value in node.values:
